@@ -52,7 +52,10 @@ MC_MapsFew == {
     << Pair("x", "x_1"), Pair("x_1", "xx"), Pair("xx", "x") >>,    \* 3-cycle
     << Pair("x", "H__x"), Pair("x_1", "H__x") >>,                  \* merge
     << Pair("x", "xx"), Pair("x_1", "H__x"), Pair("xx", "H__x") >>,\* chain + merge
-    << Pair("k", "x"), Pair("m_x", "k") >> }                       \* the lag index and a bystander
+    << Pair("k", "x"), Pair("m_x", "k") >>,                        \* the lag index and a bystander
+    << Pair("x", "x") >>,                                          \* identity entry alone
+    << Pair("x", "H__x"), Pair("x_1", "x_1"), Pair("k", "k") >>,   \* identity entries mixed with a renaming
+    << Pair("x_1", "x_1"), Pair("xx", "x"), Pair("x", "xx") >> }   \* identity entry next to a swap
 
 MC_MapsDeep == {
     << Pair("x", "x_1"), Pair("x_1", "x") >>,                      \* swap
@@ -69,7 +72,9 @@ MC_MapsQuick == {
     << Pair("x_1", "xx"), Pair("x", "x_1") >>,
     << Pair("x", "x_1"), Pair("x_1", "xx"), Pair("xx", "x") >>,
     << Pair("x", "H__x"), Pair("x_1", "H__x") >>,
-    << Pair("k", "x"), Pair("m_x", "k") >> }
+    << Pair("k", "x"), Pair("m_x", "k") >>,
+    << Pair("x", "x") >>,                                          \* identity entry alone
+    << Pair("x", "H__x"), Pair("x_1", "x_1"), Pair("k", "k") >> }  \* identity entries mixed with a renaming
 
 (* numeric words as keys, as images and as bystanders *)
 MC_MapsWords == {
@@ -82,7 +87,9 @@ MC_MapsWords == {
     << Pair("NaN", "nan"), Pair("nan", "NaN") >>,                  \* swap of two spellings
     << Pair("Infinity", "inf"), Pair("inf", "INF") >>,             \* chain
     << Pair("inf", "H__x"), Pair("INF", "H__x") >>,                \* merge
-    << Pair("j", "x"), Pair("NaN", "j") >> }
+    << Pair("j", "x"), Pair("NaN", "j") >>,
+    << Pair("nan", "nan") >>,                                      \* identity entries on numeric words
+    << Pair("inf", "x"), Pair("nan", "nan"), Pair("x", "x") >> }
 
 MC_PairsWords == { [target |-> "inf", repl |-> "x"],
                    [target |-> "nan", repl |-> "inf"],
@@ -98,7 +105,8 @@ MC_MapsWordsQuick == {
     << Pair("NaN", "nan"), Pair("nan", "NaN") >>,
     << Pair("Infinity", "inf"), Pair("inf", "INF") >>,
     << Pair("inf", "H__x"), Pair("INF", "H__x") >>,
-    << Pair("j", "x"), Pair("NaN", "j") >> }
+    << Pair("j", "x"), Pair("NaN", "j") >>,
+    << Pair("inf", "x"), Pair("nan", "nan"), Pair("x", "x") >> }   \* identity entries mixed with a renaming
 
 (* instances with line structure (NL inside brackets, NEWLINE between complete equations) *)
 MC_NamesLines == {"x", "x_1"}
@@ -109,11 +117,12 @@ MC_OpsLines2  == {"+", "*", "="}
 MC_MapsLines == {
     << Pair("x", "H__x") >>,
     << Pair("x", "x_1"), Pair("x_1", "x") >>,                      \* swap
-    << Pair("x", "x_1"), Pair("x_1", "xx") >> }                    \* chain
+    << Pair("x", "x_1"), Pair("x_1", "xx") >>,                     \* chain
+    << Pair("x", "x"), Pair("x_1", "H__x") >> }                    \* identity entry mixed with a renaming
 
 MC_PairsAll == [target : {"x", "x_1", "xx", "k"}, repl : MapTargets]
 MC_PairsNone == {}
-MC_PairsDeep == { [target |-> "x", repl |-> "xx"] }
+MC_PairsDeep == { [target |-> "x", repl |-> "xx"], [target |-> "x_1", repl |-> "x_1"] }   \* incl. an identity
 MC_PairsFew == { [target |-> "x",   repl |-> "H__x"],
                  [target |-> "x",   repl |-> "xx"],
                  [target |-> "x_1", repl |-> "x"],
